@@ -23,8 +23,8 @@ pub fn def() -> PropDef {
 }
 
 pub fn hash_cfg() -> impl Strategy<Value = DbCfg> {
-	(proptest::collection::vec(hash_col(), 1..=3), prop_oneof![5 => Just(false), 1 => Just(true)], prop_oneof![2 => Just(0x1200u16), 1 => Just(0xffffu16), 1 => Just(0u16)]).prop_map(
-		|(mut cols, zero_salt, page)| {
+	(proptest::collection::vec(hash_col(), 1..=3), prop_oneof![5 => Just(false), 1 => Just(true)], prop_oneof![2 => Just(0x1200u16), 1 => Just(0xffffu16), 1 => Just(0u16)], 0u8..4).prop_map(
+		|(mut cols, zero_salt, page, bits)| {
 			if zero_salt {
 				for (i, c) in cols.iter_mut().enumerate() {
 					if c.uniform {
@@ -32,7 +32,7 @@ pub fn hash_cfg() -> impl Strategy<Value = DbCfg> {
 					}
 				}
 			}
-			DbCfg { cols, zero_salt, sync_wal: true, sync_data: true, always_flush: false }
+			DbCfg { cols, zero_salt, sync_wal: true, sync_data: true, always_flush: false, salt_from_meta: false, stats: false }.flags(bits)
 		},
 	)
 }
